@@ -160,19 +160,37 @@ CHECKS = {
              'the model is given the prefix the selector took; int64 wrap not modelled; rate >= relay floor for the rate bounds. Trusted: hook file '
              'wallet/verif_hooks_c07.go (unchanged wrappers). No axioms (Print Assumptions closed x14; coqchk: none).'),
     "C09": dict(
-        text="Interleaving model of address issuance: N threads (any N, any site mix, n >= 0 addresses per request, commit or rollback) with steps Lock, Begin, "
-             "Read(in-memory index), Write, Commit/Abort, Callback, Unlock over newAddrMtx, the bbolt writer lock, the cached and the on-disk next index. "
-             "C09_all_schedules: for ALL schedules, requests made through sites that hold the mutex never receive duplicate indices, the issued indices are "
-             "exactly [n0, n0+k), and once all requests returned memory = disk = n0+k with no lock held; C09_each_request_obtains; C09_no_deadlock; "
-             "C09_unsafe_without_mutex / C09_unsafe_one_site_without_mutex (witness schedules). C09_sites_hold_mutex and C09_model_applies are decided by "
-             "vm_compute on Generated/AddrSites.v, regenerated by a go/ast extractor from wallet/*.go and waddrmgr on every run (six sites, all held). Dynamic leg: "
-             "real wallet.Wallet on bbolt behind a walletdb proxy that parks a request between its real commit and its OnCommit handlers; all 47 ordered pairs "
-             "of NewAddress/NewChangeAddress/CurrentAddress/CreateSimpleTx/dry run/FundPsbt with B started inside A's window, random gated scripts, stress runs; "
-             "observed schedule replayed on the model; oracle: duplicate_address, index_gap, memory_disk_disagree (vs a fresh waddrmgr.Open on a copy).",
-        note="PARTIAL: Go scheduler and memory model are not modelled (atomic lock-level steps); the site table is a syntactic go/ast check (it refuses function "
-             "values, hand-written Begin/Commit pairs and conditional locking instead of guessing); one counter (scope/account/branch) per theorem instance; "
-             "recovery (extendFoundAddresses) is outside the quantifier; no -race run (CGO off). Trusted: Coq kernel+vm_compute, Conc.v, extract-c09, proxydb, "
-             "bbolt writer exclusivity. No axioms."),
+        text='Interleaving model Addr/Conc.v of address issuance: N threads (any N, any site mix, n >= 0 addresses per request, commit or rollback; a '
+             'thread may take the mutex exclusively, only as a READ lock, or not at all; an EXTENDER thread models recovery: it writes the in-memory '
+             'index, last address and cache inside its transaction) with steps Lock, Begin, Read(in-memory index), Write, Commit/Abort, Callback, Unlock '
+             'over the address mutex, the bbolt writer lock, the cached and the on-disk next index, the cached last address and the address cache. 13 '
+             'theorems: C09_all_schedules - for ALL schedules, requests and recoveries made through sites that hold the mutex exclusively over the whole '
+             'transaction incl. its commit handlers never receive duplicate indices, the consumed indices are exactly [n0, n0+k), and once all returned '
+             'memory = disk = n0+k with no lock held; C09_handed_out_distinct; C09_last_address_and_cache (the cached last address is the one just below '
+             'the committed next index, the cache holds nothing the database lacks); C09_cache_covers_handed_out; C09_safe_if_mutex_held, '
+             'C09_each_request_obtains, C09_no_deadlock; witnesses C09_unsafe_without_mutex, C09_unsafe_one_site_without_mutex, C09_unsafe_with_read_lock, '
+             'C09_unsafe_recovery_without_mutex. C09_sites_hold_mutex and C09_model_applies are decided by vm_compute on Generated/AddrSites.v, '
+             'regenerated on every run by a go/ast+go/types extractor over the WHOLE repository (25 packages): primitives = exported ScopedKeyManager '
+             'methods from which an assignment to the next-index fields is reachable, sites = every walletdb transaction runner call in any package whose '
+             'closure can reach a primitive, mutex = the sync.Mutex/RWMutex field locked around them (RLock counts as not held; a site in a package that '
+             'cannot see the field is not held); only ScopedKeyManager and its index fields are looked up by name, so renaming the mutex or a function, '
+             'factoring Update into a helper called under the lock or a locking wrapper stay quiet; shapes not understood are decided by a behavioural '
+             'probe. Seven sites on this tree, all held: NewAddress, NewChangeAddress, CurrentAddress, FundPsbt, ImportAccountDryRun, txToOutputs, '
+             'recovery. Dynamic leg: real wallet.Wallet on bbolt behind a walletdb proxy that parks a request between its real commit and its OnCommit '
+             'handlers, or with bdb/bbolt running the handlers itself (evidence says which); all ordered pairs of the request kinds incl. dry-run import '
+             "and recovery (fake chain reporting a found index) with B started inside A's window, random gated scripts, stress runs, follow-up requests "
+             'and a restart; un-mutexed issuers as negative controls and as stand-ins for source sites the harness cannot call by name; observed schedule '
+             'replayed on the model; compared: handed-out index multiset, in-memory and on-disk next index, last address per branch, cache containment; '
+             'oracle: duplicate_address, index_gap, memory_disk_disagree, last_address_disagree, cached_address_unknown_to_database, '
+             'restart_reissues_address, recovered_address_reissued; thorough tier re-runs the scenarios in a race-detector build (data_race).',
+        note='One defect found and repaired (fix: 3232cc6, wallet.recovery extended the in-memory indexes without the address mutex: a parked NewAddress '
+             'commit handler overwrote them, indexes recovery had found in use were re-issued and the stored counter regressed); replay runs first from '
+             'corpus/C09. PARTIAL: Go scheduler and memory model are not modelled (atomic lock-level steps; the race-detector run is thorough tier only); '
+             'the call graph over-approximates (closures folded into their creator, references counted as calls, interface calls resolved by name); the '
+             'CreateSimpleTx hand-off to the creator goroutine is a channel, not a call; external callers of ScopedKeyManager outside the repository are '
+             'not covered; the recovery witness is proved for one start index; safety assumes a recovery batch commits (a rolled-back batch is the C08/C10 '
+             'eager-memory finding); one counter (scope/account/branch) per theorem instance. Trusted: Coq kernel+vm_compute, Conc.v, extract-c09, '
+             'proxydb, bbolt writer exclusivity. No axioms.'),
     "C05": dict(
         text="Executable model Addr/Lock.v of waddrmgr's lock discipline (Lock, Unlock incl. wrong passphrase and derive-on-unlock, ChangePassphrase, "
              'ConvertToWatchingOnly, address/script/account objects and their clear-text buffers, the LRU key cache with its source capacity) '
